@@ -786,7 +786,12 @@ pub fn main(opts: &Opts) {
             }
             // LazyValue: the bytes of exactly this value, whatever follows (in-scope values whose value part is not itself described)
             if oos.is_none() && lazy_in_scope(&v) {
-                lazy_checks(&enc, &tail, report_ptr(&mut report), &prop, &text);
+                let (l, e) = lazy_checks(&enc, &tail, report_ptr(&mut report), &prop, &text);
+                if tail.len() <= 4096 {
+                    lines.push(l);
+                    expect.push(e);
+                    ctx.push(json!({"value": text, "lazy": true}));
+                }
             }
             // a stream may report a retryable interruption at any read call: the result must not change
             if tail.len() <= 48 {
@@ -888,6 +893,35 @@ pub fn main(opts: &Opts) {
             lines.push(format!("V dec {}", hx(bs)));
             expect.push(model_dec_line(&out));
             ctx.push(json!({"bytes": hx(bs)}));
+            // the byte scanner behind LazyValue on the same bytes, slice and stream
+            let lz = std::panic::catch_unwind(|| serde_amqp::from_slice::<serde_amqp::lazy::LazyValue>(bs));
+            let lzs = match &lz {
+                Ok(Ok(l)) => format!("OK {} {}", l.as_slice().len(), bs.len() - l.as_slice().len().min(bs.len())),
+                Ok(Err(_)) => "ERR".to_string(),
+                Err(_) => "PANIC".to_string(),
+            };
+            if let Ok(Ok(l)) = &lz {
+                if !bs.starts_with(l.as_slice()) {
+                    report.finding(Finding { kind: "violation", key: "lazy:not-a-prefix".into(), description: format!("LazyValue from {} holds {}, which is not a prefix of the input", short(bs), short(l.as_slice())), replay: json!({"property": prop, "module": "codec", "bytes": hx(bs), "lazy": true}) });
+                }
+            }
+            if lzs == "PANIC" {
+                report.finding(Finding { kind: "violation", key: "decode-panic:LazyValue".into(), description: format!("from_slice::<LazyValue>({}) panicked", short(bs)), replay: json!({"property": prop, "module": "codec", "bytes": hx(bs), "lazy": true}) });
+            }
+            if bs.len() <= 64 {
+                let src = Chunked { data: bs, pos: 0, chunk: 3, interrupt_at: None, calls: 0 };
+                let io = match serde_amqp::from_reader::<serde_amqp::lazy::LazyValue>(src) {
+                    Ok(l) => format!("OK {} {}", l.as_slice().len(), bs.len() - l.as_slice().len().min(bs.len())),
+                    Err(_) => "ERR".to_string(),
+                };
+                if io != lzs {
+                    report.finding(Finding { kind: "violation", key: "lazy:io-vs-slice".into(), description: format!("{} as a LazyValue: slice {}, stream {}", short(bs), lzs, io), replay: json!({"property": prop, "module": "codec", "bytes": hx(bs), "lazy": true}) });
+                }
+            }
+            report.count(if lzs.starts_with("OK") { "lazy_bytes_ok" } else { "lazy_bytes_err" });
+            lines.push(format!("V lazy {}", if bs.is_empty() { "-".to_string() } else { hx(bs) }));
+            expect.push(lzs);
+            ctx.push(json!({"bytes": hx(bs), "lazy": true}));
         }
     }
     report.count_n("byte_strings", seen.len() as u64);
@@ -1020,7 +1054,7 @@ fn lazy_in_scope(v: &Value) -> bool {
 
 /// C20 / C03 for `LazyValue`: from a slice, through `LazyValue::from_reader` and from a stream it holds
 /// exactly the bytes of the first value, and writes them back unchanged
-fn lazy_checks(enc: &[u8], with_tail: &[u8], report: &mut Report, prop: &str, text: &str) {
+fn lazy_checks(enc: &[u8], with_tail: &[u8], report: &mut Report, prop: &str, text: &str) -> (String, String) {
     use serde_amqp::lazy::LazyValue;
     report.count("lazy_values");
     let replay = json!({"property": prop, "module": "codec", "value": text, "bytes": hx(with_tail), "lazy": true});
@@ -1045,6 +1079,7 @@ fn lazy_checks(enc: &[u8], with_tail: &[u8], report: &mut Report, prop: &str, te
             r => report.finding(Finding { kind: "violation", key: "lazy:from-reader".into(), description: format!("LazyValue::from_reader over a slice reader gives {:?} for {}", r.map(|l| short(l.as_slice())), short(with_tail)), replay: replay.clone() }),
         }
     }
+    let line = (format!("V lazy {}", hx(with_tail)), format!("OK {} {}", enc.len(), with_tail.len() - enc.len()));
     for chunk in [1usize, 7, 1 << 16] {
         let src = Chunked { data: with_tail, pos: 0, chunk, interrupt_at: None, calls: 0 };
         match serde_amqp::from_reader::<LazyValue>(src) {
@@ -1055,6 +1090,7 @@ fn lazy_checks(enc: &[u8], with_tail: &[u8], report: &mut Report, prop: &str, te
             }
         }
     }
+    line
 }
 
 /// variable-width bodies around the 64 KiB pieces in which the readers take long bodies: round trip,
